@@ -1,5 +1,6 @@
 import Driver.C01
 import IGVerif.Spec.PrivateLink
+import IGVerif.Spec.Shape
 namespace Drv
 open Lean IGVerif
 
@@ -40,6 +41,17 @@ def genC16Stmt (nested : Bool) : G Stmt := do
   let (s, _) ← g.run 0
   pure s
 
+/-- known-finding class (DESIGN.md L10): the shared property tree holds at least two annotations
+    and a property that becomes private is a combination — after the collapse of the tree's
+    root the combination's values are not withdrawn from the shared properties -/
+def kfC16 (s : Stmt) : String :=
+  let anns := s.parts.filterMap fun p => match p with | .ann h _ e => some (h, e) | _ => none
+  let isProp := fun (h : Hdr) => h.sym.isProperty || h.sym.name = str "Cex"
+  let compSfx := (anns.filter (fun a => !isProp a.1)).filterMap (fun a => a.1.sfx)
+  let props := anns.filter (fun a => isProp a.1)
+  let matchedComb := props.any fun a => (match a.1.sfx with | some x => compSfx.contains x | none => false) && a.2.hasOp
+  if props.length ≥ 2 && matchedComb then "C16-combination-stays-shared" else ""
+
 def genC16Cases (tier : String) (seed : Nat) : Array Case := Id.run do
   let n := if tier = "thorough" then 4000 else 300
   let mut out : Array Case := #[]
@@ -49,7 +61,8 @@ def genC16Cases (tier : String) (seed : Nat) : Array Case := Id.run do
     rng := r1
     let a := Json.mkObj [("text", (String.ofList (renderS s) : Json))]
     let c : Case := { id := s!"c16-{i}", op := "parse", args := a, exp := Json.str (showNode (denoteLinked s)),
-                      tag := if i % 3 = 0 then "with-nested-properties" else "simple-properties" }
+                      tag := if i % 3 = 0 then "with-nested-properties" else "simple-properties",
+                      note := Json.mkObj [("kf", (kfC16 s : Json))] }
     out := out.push c
   pure out
 
